@@ -178,7 +178,8 @@ def make_init_labels(spec):
     kind = spec["kind"]
 
     def f(K, data):
-        T = data.shape[0]
+        K = int(K)          # the library passes the caller's cluster count on as given (possibly a narrow NumPy integer)
+        T = int(data.shape[0])
         if kind == "raise":
             from ticcmon import inject
             raise inject.make_exc(spec["cls"], spec["msg"])
